@@ -613,6 +613,11 @@ class Ctx:
         }
         if extra:
             cov.update(extra)
+        if ndis == 0 or nob == 0:
+            # the schema's proof-level keys require at least one discharged obligation: a run in which no
+            # obligation could be discharged (a violation run) reports them under other names
+            cov["obligations_total"] = cov.pop("obligations")
+            cov["obligations_discharged"] = cov.pop("discharged")
         status = 0
         lines = []
         for k in self.known_hits:
